@@ -195,7 +195,7 @@ async def run_store(backend, cap, store_seed, nreqs, counters, coverage, explici
                 n = 1 if u.rng.random() < 0.65 else u.rng.randint(2, 5)
                 fs = []
                 for _ in range(n):
-                    lim = u.rng.choice([None, None, 0, 1, 2, cap - 1, cap, cap + 1, 10 ** 9])
+                    lim = u.rng.choice([None, None, 0, 1, 2, cap - 1, cap, cap + 1, 10 ** 9, 2 ** 31 - 1, 2 ** 31, 2 ** 32, 2 ** 53 - 1, 2 ** 63 - 1])
                     f = u.wellformed_filter(pool, max_conds=u.rng.choice([1, 1, 2, 2, 3]), limit=lim)
                     f.pop("ids", None) if u.rng.random() < 0.5 else None
                     if not [k for k in f if k != "limit"]:
